@@ -5,6 +5,7 @@ import (
 	"go/token"
 	"go/types"
 	"sort"
+	"strconv"
 	"strings"
 
 	"golang.org/x/tools/go/ssa"
@@ -442,9 +443,9 @@ func init() {
 		"(time.Time).After":       {pure: true},
 		"time.Since":              {pure: true},
 		"(time.Duration).String":  {pure: true},
-		"errors.New":              {pure: true},
+		"errors.New":              {pure: true, apply: (*fnTrans).mNewError},
 		"fmt.Sprintf":             {pure: true},
-		"fmt.Errorf":              {pure: true},
+		"fmt.Errorf":              {pure: true, apply: (*fnTrans).mNewError},
 		"strings.HasPrefix":       {pure: true},
 		"strings.Contains":        {pure: true},
 		"strings.Index":           {pure: true},
@@ -452,7 +453,7 @@ func init() {
 		"strings.ToLower":         {pure: true},
 		"strconv.Atoi":            {pure: true},
 		"strconv.Itoa":            {pure: true},
-		"strconv.IsPrint":         {pure: true},
+		"strconv.IsPrint":         {pure: true, apply: (*fnTrans).mIsPrint},
 		"bytes.HasPrefix":         {pure: true, apply: (*fnTrans).mHasPrefix},
 		"bytes.Equal":             {pure: true, apply: (*fnTrans).mBytesEqual},
 		"sync/atomic.AddInt32":    {apply: (*fnTrans).mAtomicAdd, mods: atomicMods},
@@ -1345,6 +1346,44 @@ func (t *fnTrans) mRandFloat(in ssa.Instruction, cc *ssa.CallCommon, res ssa.Val
 	r := t.freshResults(res, nameOf(res, "rnd"))
 	if len(r) == 1 {
 		t.assume("(and (<= 0.0 " + r[0] + ") (< " + r[0] + " 1.0))")
+	}
+	return true
+}
+
+
+// strconv.IsPrint on a byte-ranged rune: the table is evaluated from the real
+// library when govc runs and supplied as the definition of isprint (assumption).
+func isprintDef() string {
+	var ranges []string
+	start := -1
+	for b := 0; b <= 256; b++ {
+		p := b < 256 && strconv.IsPrint(rune(b))
+		if p && start < 0 {
+			start = b
+		}
+		if !p && start >= 0 {
+			ranges = append(ranges, fmt.Sprintf("(and (<= %d b) (<= b %d))", start, b-1))
+			start = -1
+		}
+	}
+	return "(define-fun isprint ((b Int)) Bool (or " + strings.Join(ranges, " ") + "))\n"
+}
+
+func (t *fnTrans) mIsPrint(in ssa.Instruction, cc *ssa.CallCommon, res ssa.Value) bool {
+	x := t.val(cc.Args[0])
+	r := t.freshResults(res, nameOf(res, "isprint"))
+	// only for byte-ranged arguments is the table complete
+	t.assume(implies("(and (<= 0 "+x+") (<= "+x+" 255))", eq(r[0], "(isprint "+x+")")))
+	return true
+}
+
+
+// errors.New / fmt.Errorf return a non-nil error that is not one of mangos' constants.
+func (t *fnTrans) mNewError(in ssa.Instruction, cc *ssa.CallCommon, res ssa.Value) bool {
+	r := t.freshResults(res, nameOf(res, "err"))
+	if len(r) == 1 {
+		t.assume("(not (= (itag " + r[0] + ") 0))")
+		t.libErrorFact(r[0])
 	}
 	return true
 }
